@@ -25,7 +25,7 @@
 From Coq Require Import List Arith Bool NArith ZArith.
 From PV Require Import Common.Cases.
 Import ListNotations.
-Open Scope N_scope.
+Local Open Scope N_scope.
 
 Inductive exn := ValueError | StructError | IndexError | ZeroDivisionError.
 Inductive res (A : Type) := Ok (a : A) | Raise (e : exn).
@@ -151,7 +151,44 @@ Definition set_pad (s : st) (p : N) : st :=
   {| s_seq := s_seq s; s_head := s_head s; s_pad := p; s_src := s_src s;
      s_reads := s_reads s; s_backlog := s_backlog s; s_out := s_out s |}.
 
-(* StreamClient._send_packet(source, first_packet, transport); result = frames sent *)
+(* _send_packet, middle part: what is put in the packet for the frames just read
+     if not frames:  frames = packet_size * b"\x00"; padding_sent += int(len(frames)/frame_size)
+     elif len(frames) != packet_size:  frames += (packet_size - len(frames)) * b"\x00"        *)
+Definition pad_frames (c : cfg) (s1 : st) (frames0 : bytes) : bytes * st :=
+  let ps := packet_size c in
+  match frames0 with
+  | [] => (zeros ps, set_pad s1 (s_pad s1 + frames_of c (zeros ps)))        (* padding packet *)
+  | _ :: _ =>
+      if (length frames0 =? ps)%nat then (frames0, s1)
+      else (frames0 ++ zeros (ps - length frames0), s1)                      (* pad last packet *)
+  end.
+
+(* _send_packet, last part: header, closing test, send, backlog, bookkeeping *)
+Definition emit (c : cfg) (first : bool) (s2 : st) (frames : bytes) : st * res N :=
+  match audio_header first (s_seq s2) (rtptime c s2) (c_ssrc c) with
+  | Raise e => (s2, Raise e)
+  | Ok header =>
+      if is_closing c s2 then (s2, Ok 0)
+      else
+        (* AirPlayV1.send_audio_packet: packet = header + audio; transport.sendto(packet);
+           return context.rtpseq, packet *)
+        let packet := header ++ frames in
+        let out' := s_out s2 ++ [packet] in
+        match fifo_set (c_lim c) (s_backlog s2) (s_seq s2) packet with      (* backlog[rtpseq] = packet *)
+        | Raise e =>
+            ({| s_seq := s_seq s2; s_head := s_head s2; s_pad := s_pad s2; s_src := s_src s2;
+                s_reads := s_reads s2; s_backlog := s_backlog s2; s_out := out' |}, Raise e)
+        | Ok bl =>
+            ({| s_seq := (s_seq s2 + 1) mod SEQMOD;
+                s_head := s_head s2 + frames_of c frames;
+                s_pad := s_pad s2; s_src := s_src s2; s_reads := s_reads s2;
+                s_backlog := bl; s_out := out' |}, Ok (frames_of c frames))
+        end
+  end.
+
+(* StreamClient._send_packet(source, first_packet, transport); result = frames sent.
+   (frame_size = 0 is outside the domain; the real code divides by it in the places shown
+   above, the model reports it right after the read.) *)
 Definition send_packet (c : cfg) (first : bool) (s : st) : st * res N :=
   if c_latency c <=? s_pad s then (s, Ok 0)                      (* padding_sent >= latency *)
   else
@@ -160,34 +197,8 @@ Definition send_packet (c : cfg) (first : bool) (s : st) : st * res N :=
     | Raise e => (s1, Raise e)
     | Ok frames0 =>
         if (c_fs c =? 0)%nat then (s1, Raise ZeroDivisionError) else
-        let ps := packet_size c in
-        let '(frames, s2) :=
-          match frames0 with
-          | [] => (zeros ps, set_pad s1 (s_pad s1 + frames_of c (zeros ps)))   (* padding packet *)
-          | _ :: _ =>
-              if (length frames0 =? ps)%nat then (frames0, s1)
-              else (frames0 ++ zeros (ps - length frames0), s1)                (* pad last packet *)
-          end in
-        match audio_header first (s_seq s2) (rtptime c s2) (c_ssrc c) with
-        | Raise e => (s2, Raise e)
-        | Ok header =>
-            if is_closing c s2 then (s2, Ok 0)
-            else
-              (* AirPlayV1.send_audio_packet: packet = header + audio; transport.sendto(packet);
-                 return context.rtpseq, packet *)
-              let packet := header ++ frames in
-              let out' := s_out s2 ++ [packet] in
-              match fifo_set (c_lim c) (s_backlog s2) (s_seq s2) packet with
-              | Raise e =>
-                  ({| s_seq := s_seq s2; s_head := s_head s2; s_pad := s_pad s2; s_src := s_src s2;
-                      s_reads := s_reads s2; s_backlog := s_backlog s2; s_out := out' |}, Raise e)
-              | Ok bl =>
-                  ({| s_seq := (s_seq s2 + 1) mod SEQMOD;
-                      s_head := s_head s2 + frames_of c frames;
-                      s_pad := s_pad s2; s_src := s_src s2; s_reads := s_reads s2;
-                      s_backlog := bl; s_out := out' |}, Ok (frames_of c frames))
-              end
-        end
+        let '(frames, s2) := pad_frames c s1 frames0 in
+        emit c first s2 frames
     end.
 
 (* _send_number_of_packets(source, transport, count) -> (total_frames, has_more) *)
@@ -253,15 +264,21 @@ Definition stream (c : cfg) (seq0 : N) (script : list (res bytes)) (sched : list
 (* ------------------------------------------------------------------ control client *)
 
 (* ControlClient._retransmit_lost_packets(request, addr) - datagrams sent on the control
-   transport, in order *)
-Definition retransmit (f : fifo) (lost_seqno lost_packets : N) : list bytes :=
-  flat_map (fun i =>
-      let seqno := (lost_seqno + N.of_nat i) mod SEQMOD in
+   transport, in order.  [cur] = request.lost_seqno + i, [n] = iterations left of
+   `for i in range(request.lost_packets)`. *)
+Fixpoint retransmit_from (f : fifo) (cur : N) (n : nat) : list bytes :=
+  match n with
+  | O => []
+  | S m =>
+      let seqno := cur mod SEQMOD in                               (* (lost_seqno + i) % 2**16 *)
       match fifo_get seqno f with                                  (* if seqno in backlog *)
       | Some packet => [[128; 214] ++ firstn 2 (skipn 2 packet) ++ packet]
       | None => []
-      end)
-    (seq 0 (N.to_nat lost_packets)).
+      end ++ retransmit_from f (cur + 1) m
+  end.
+
+Definition retransmit (f : fifo) (lost_seqno lost_packets : N) : list bytes :=
+  retransmit_from f lost_seqno (N.to_nat lost_packets).
 
 Definition nthb (l : bytes) (i : nat) : N := nth i l 0.
 
@@ -277,8 +294,12 @@ Definition control_received (f : fifo) (data : bytes) : res (list bytes) :=
 (* ------------------------------------------------------------------ correspondence *)
 
 (* deterministic test pattern: byte i of the source is (i*a + b) mod 251 *)
-Definition pattern (a b : N) (len : nat) : bytes :=
-  map (fun i => (N.of_nat i * a + b) mod 251) (seq 0 len).
+Fixpoint pattern_from (a cur : N) (len : nat) : bytes :=
+  match len with
+  | O => []
+  | S n => cur :: pattern_from a ((cur + a) mod 251) n
+  end.
+Definition pattern (a b : N) (len : nat) : bytes := pattern_from a (b mod 251) len.
 
 Definition exn_eqb (a b : exn) : bool :=
   match a, b with
@@ -302,13 +323,18 @@ Definition outcome_matches (a : outcome) (b : oend) : bool :=
    here), so that no large nat literal is ever parsed. *)
 Definition n2n := N.to_nat.
 
-(* A datagram observed on the audio transport, canonicalised by the harness:
-   its 12 header bytes verbatim and the payload as
-   swap16(source[off : off+len]) ++ pad zero bytes (checked byte for byte in Python). *)
-Record odgram := { o_hdr : bytes; o_off : N; o_len : N; o_pad : N }.
+(* The datagrams observed on the audio transport, canonicalised by the harness: the 12 header
+   bytes verbatim and the payload as swap16(next [o_len] bytes of the source) ++ [o_pad] zero
+   bytes (checked byte for byte in Python). *)
+Record odgram := { o_hdr : bytes; o_len : N; o_pad : N }.
 
-Definition rebuild (src : bytes) (o : odgram) : bytes :=
-  o_hdr o ++ swap16 (firstn (n2n (o_len o)) (skipn (n2n (o_off o)) src)) ++ zeros (n2n (o_pad o)).
+Fixpoint rebuild (rest : bytes) (os : list odgram) : list bytes :=
+  match os with
+  | [] => []
+  | o :: t =>
+      (o_hdr o ++ swap16 (firstn (n2n (o_len o)) rest) ++ zeros (n2n (o_pad o)))
+      :: rebuild (skipn (n2n (o_len o)) rest) t
+  end.
 
 (* A control datagram received after [q_after] audio datagrams had been sent, and the replies
    seen: each reply canonicalised as (4 header bytes, index of the audio datagram it repeats,
@@ -356,7 +382,7 @@ Definition check_case (k : ocase) : bool :=
   let '(s, oc) := stream c (k_seq0 k) script (k_sched k) in
   let '(fseq, fhead, fpad, freads) := k_final k in
   outcome_matches oc (k_outcome k)
-  && list_beq bytes_beq (s_out s) (map (rebuild src) (k_dgrams k))
+  && list_beq bytes_beq (s_out s) (rebuild src (k_dgrams k))
   && (s_seq s =? fseq) && (s_head s =? fhead) && (s_pad s =? fpad) && (N.of_nat (s_reads s) =? freads)
   && list_beq N.eqb (map fst (s_backlog s)) (k_keys k)
   && list_beq bytes_beq (map snd (s_backlog s)) (skipn (n2n (k_blfrom k)) (s_out s))
